@@ -8,12 +8,15 @@ import (
 	"fmt"
 	"math/big"
 	"math/rand/v2"
+	"os"
 	"runtime/debug"
 	"sort"
 	"strings"
 	"testing"
 	"testing/synctest"
 	"time"
+
+	"github.com/bnb-chain/tss-lib/v2/tss"
 )
 
 // Scenario fully determines one simulated run together with Choices.
@@ -187,6 +190,14 @@ func RunScenario(t *testing.T, sc *Scenario) *Result {
 		res.Verdict = "violation"
 		res.Violation = &Violation{Class: "harness", Msg: "unknown driver " + sc.Kind}
 		return res
+	}
+	PIDStrings = sc.Str("idstrings", "")
+	defer func() { PIDStrings = "" }()
+	// every protocol and proof call of the harness names its curve: the process-wide default curve
+	// (tss.SetCurve) must not matter. Odd runs execute with the other curve as the default.
+	if os.Getenv("VERIF_DEFAULT_CURVE") != "fixed" && sc.Run%2 == 1 {
+		tss.SetCurve(tss.Edwards())
+		defer tss.SetCurve(tss.S256())
 	}
 	rc := &RunCtx{T: t, Sc: sc, Res: res}
 	rc.Ch = NewChooser(seedFor(sc.Seed, sc.Check, sc.Run, "sched"), sc.Choices, sc.Replay)
